@@ -194,7 +194,8 @@ func c16SpecGen() *rapid.Generator[c16Spec] {
 			case 3:
 				s.RelAddr, s.RelPort = rapid.SampledFrom(c16Addr4).Draw(t, "ra"), rapid.IntRange(1, 65535).Draw(t, "rp")
 			case 4:
-				s.RelAddr, s.RelPort = rapid.SampledFrom(c16Addr6).Draw(t, "ra"), rapid.IntRange(1, 65535).Draw(t, "rp")
+				// (IPv6 related addresses also with a zone: the related address is carried verbatim)
+				s.RelAddr, s.RelPort = rapid.SampledFrom(append(append([]string{}, c16Addr6...), "fe80::1%eth0", "fe80::a:b%wlan0")).Draw(t, "ra"), rapid.IntRange(1, 65535).Draw(t, "rp")
 			}
 			if s.Typ == CandidateTypeRelay {
 				s.RelayProto = rapid.SampledFrom([]string{"", "udp", "tcp", "dtls", "tls"}).Draw(t, "rproto")
